@@ -1,0 +1,46 @@
+//go:build verif
+
+package rollout
+
+import (
+	"github.com/openkruise/rollouts/api/v1beta1"
+	"github.com/openkruise/rollouts/pkg/trafficrouting"
+	"github.com/openkruise/rollouts/pkg/util"
+	"k8s.io/apimachinery/pkg/runtime"
+	"k8s.io/client-go/tools/record"
+	"sigs.k8s.io/controller-runtime/pkg/client"
+	"sigs.k8s.io/controller-runtime/pkg/handler"
+)
+
+// NewReconcilerForVerif builds a RolloutReconciler the way SetupWithManager does, without a manager.
+func NewReconcilerForVerif(c client.Client, scheme *runtime.Scheme, recorder record.EventRecorder) *RolloutReconciler {
+	r := &RolloutReconciler{Client: c, Scheme: scheme, Recorder: recorder}
+	r.finder = util.NewControllerFinder(c)
+	r.trafficRoutingManager = trafficrouting.NewTrafficRoutingManager(c)
+	r.canaryManager = &canaryReleaseManager{Client: c, trafficRoutingManager: r.trafficRoutingManager, recorder: recorder}
+	r.blueGreenManager = &blueGreenReleaseManager{Client: c, trafficRoutingManager: r.trafficRoutingManager, recorder: recorder}
+	return r
+}
+
+// SetGracePeriodForVerif overrides the package default grace period (seconds).
+func SetGracePeriodForVerif(seconds int32) { defaultGracePeriodSeconds = seconds }
+
+// NewWorkloadEventHandlerForVerif returns the real workload -> Rollout event mapping.
+func NewWorkloadEventHandlerForVerif(reader client.Reader, scheme *runtime.Scheme) handler.EventHandler {
+	return &enqueueRequestForWorkload{reader: reader, scheme: scheme}
+}
+
+// NewBatchReleaseEventHandlerForVerif returns the real BatchRelease -> Rollout event mapping.
+func NewBatchReleaseEventHandlerForVerif(reader client.Reader) handler.EventHandler {
+	return &enqueueRequestForBatchRelease{reader: reader}
+}
+
+// NextCanaryTaskForVerif exposes the canary finalising task order.
+func NextCanaryTaskForVerif(reason string, current v1beta1.FinalisingStepType) v1beta1.FinalisingStepType {
+	return nextCanaryTask(reason, current)
+}
+
+// NextBlueGreenTaskForVerif exposes the blue-green finalising task order.
+func NextBlueGreenTaskForVerif(reason string, current v1beta1.FinalisingStepType) v1beta1.FinalisingStepType {
+	return nextBlueGreenTask(reason, current)
+}
